@@ -252,7 +252,7 @@ func TestVerif_C08_Errors(t *testing.T) {
 	depth := m.N(6, 8)
 	m.Rule(fmt.Sprintf("errors: EVERY nesting up to depth %d of {Wrap, Wrapf, WithMessage, WithStack} over roots {errors.New, errors.Errorf, io.EOF, a "+
 		"foreign error type}: Cause() is the root (identical value), Error() is the messages outer-to-inner joined by ': ', %%v/%%s/%%+v/%%q do not "+
-		"panic and %%+v contains every message; wrapping nil yields nil at every depth; distinct = nesting word x root", depth))
+		"panic and %%+v contains every message; wrapping nil yields nil at every depth; plus long chains (each wrapper alone and the cycle of all four at 15..300 layers around the powers of two, PRNG words of 10..300 layers); distinct = nesting word x root", depth))
 	m.Exhaustive(true)
 	type root struct {
 		name string
@@ -305,11 +305,45 @@ func TestVerif_C08_Errors(t *testing.T) {
 		}
 	}
 	rec(nil)
+	// "any number of wrapping layers": long chains as well (an error re-wrapped on every hop or retry) — each wrapper alone and the
+	// cycle of all four at lengths around the powers of two, and PRNG words of 10..300 layers
+	exhaustiveWords := len(words)
+	for _, L := range []int{15, 16, 17, 31, 32, 33, 63, 64, 65, 100, 127, 128, 129, 255, 256, 257, 300} {
+		for w := 0; w <= len(wrappers); w++ {
+			word := make([]int, L)
+			for k := range word {
+				if w == len(wrappers) {
+					word[k] = k % len(wrappers)
+				} else {
+					word[k] = w
+				}
+			}
+			words = append(words, word)
+		}
+	}
+	lr := m.Rand("longwords", 0)
+	for k := 0; k < m.N(40, 400); k++ {
+		word := make([]int, lr.Range(10, 300))
+		for q := range word {
+			word[q] = lr.Intn(len(wrappers))
+		}
+		words = append(words, word)
+	}
+	m.Note("long_nestings", len(words)-exhaustiveWords)
 	mon.Parallel(len(words), func(wk, wi int) {
 		word := words[wi]
 		name := ""
 		for _, w := range word {
 			name += wrappers[w] + ">"
+		}
+		if len(word) > depth {
+			// long chains: name by length and a digest of the word (the full word is in the replay record)
+			h := 0
+			for _, w := range word {
+				h = (h*5 + w + 1) % 1000003
+			}
+			name = fmt.Sprintf("long%d/%d/", len(word), h)
+			m.Count("long_nestings_checked", 1)
 		}
 		// nil stays nil
 		m.Guard("errors.nil", nil, func() {
